@@ -1595,6 +1595,8 @@ class Compiler:
         return self.op(target, "is_set", [])
       if name in ("set", "clear"):
         return self.op(target, name, [], want=0)
+      if name == "wait" and not args and not kwargs:
+        return self.op(target, "wait", [], want=0)       # blocks until the flag is up
     if cls == "RLock":
       if name == "acquire":
         return self.op(target, "acquire", [])
